@@ -9,7 +9,7 @@ PROP = dict(
          'increasing, copies equal their source; ASan build and TSan build. non-trivial = >= 2 notifications between two polls of one observer, an '
          'observer created after a notification, or an observable destroyed before its observers; >= 2 threads with >= 4 fresh stamps; distinct by case hash',
     floor=dict(quick=3000, thorough=30000),
-    confirm_replays=10,
+    confirm_replays=16,
     assumptions=TRUST + ['thread interleavings are sampled'],
     bins=[rc('C19_observer', 'harness/C19_observer.cpp', None, extra_src=SRC),
           rc('C19_observer_tsan', 'harness/C19_observer.cpp', None, extra_src=SRC, cxx='g++', san='-fsanitize=thread -fno-omit-frame-pointer',
